@@ -153,12 +153,13 @@ class C20Plan(RunPlan):
         }
         d = os.path.join(REPLAY_DIR, "C20")
         os.makedirs(d, exist_ok=True)
-        path = os.path.join(d, "%s-%d.json" % (sig.replace("/", "_"), req.get("seed") or 0))
+        from sim.plans import safe_name
+
+        path = os.path.join(d, safe_name(sig, req.get("seed") or 0))
         with open(path, "w") as f:
             json.dump(rp, f, indent=1)
         fresh = self.replay(rp)
-        if not any(x["signature"] == sig for x in fresh.get("violations", [])):
-            out("HARNESS-WARNING replay %s did not reproduce in a fresh process" % path)
+        self.last_replay_reproduced = any(x["signature"] == sig for x in fresh.get("violations", []))
         return path
 
 
@@ -250,6 +251,8 @@ class C19Plan(RunPlan):
                 sigs[v["signature"]] = sigs.get(v["signature"], 0) + 1
                 violations.append(dict(v, boot=b, request=req,
                                        detail=dict(v.get("detail") or {}, corpus=cname, ordinal=k, of=n)))
+        if fired != len(tasks):
+            raise driver.HarnessError("F2 enumeration: %d of %d injections fired" % (fired, len(tasks)))
         ev["f2_enumeration"] = {
             "exhaustive": True, "corpus_calls": calls, "boots": len(enum_boots),
             "crash_points_enumerated": len(tasks), "injections_fired": fired,
@@ -416,14 +419,17 @@ class C08Plan(RunPlan):
         h = (res.get("queries") or {}).get(str(q["id"]))
         b = (base_res.get("queries") or {}).get(str(q["id"]))
         c = res.setdefault("counters", {})
-        c["C08.baseline.checked"] = c.get("C08.baseline.checked", 0) + 1
         if h is None or b is None:
             c["C08.baseline.skipped"] = c.get("C08.baseline.skipped", 0) + 1
             return None
+        c["C08.baseline.checked"] = c.get("C08.baseline.checked", 0) + 1
         if same_outcome(h, b, 1e-9):
             return None
+        ho = (res.get("query_orders") or {}).get(str(q["id"]))
+        bo = (base_res.get("query_orders") or {}).get(str(q["id"]))
         return {"clause": "C08.baseline", "signature": None, "step": qi,
-                "detail": {"query": q, "history_outcome": h, "fresh_world_outcome": b}}
+                "detail": {"query": q, "history_outcome": h, "fresh_world_outcome": b,
+                           "factor_order_in_history": ho, "factor_order_in_fresh_world": bo}}
 
     def diagnose(self, template_req, ops, qi, v):
         """history/<mechanism>: re-run the history with every cache cleared right
@@ -456,9 +462,12 @@ class C08Plan(RunPlan):
         bres = pool.run(btasks)
         self.baseline_worlds = getattr(self, "baseline_worlds", 0) + len(btasks)
         pending = []
-        for (i, qi), br in zip(where, bres):
+        for k, ((i, qi), br) in enumerate(zip(where, bres)):
             if "harness_error" in br:
-                results[i] = {"harness_error": br["harness_error"]}
+                br = driver.one(*btasks[k])          # once more, in a fresh template
+                bres[k] = br
+            if "harness_error" in br:
+                results[i]["harness_error"] = "baseline world: " + str(br["harness_error"])
                 continue
             if "harness_error" in results[i]:
                 continue
@@ -494,9 +503,12 @@ class C08Plan(RunPlan):
             return "stale-cache"
         if ar is not None:
             a = (ar.get("queries") or {}).get(str(q["id"]))
-            if same_outcome(a, h, 1e-9):
-                # a fresh world that only repeats the history's pure unit algebra (no queries)
-                # already reproduces the history's answer
+            d = v["detail"]
+            if same_outcome(a, h, 1e-9) and d.get("factor_order_in_history") is not None and \
+                    d.get("factor_order_in_history") != d.get("factor_order_in_fresh_world"):
+                # a fresh world that only repeats the history's pure unit algebra (no queries) already
+                # reproduces the history's answer, AND the operand units' factors were first multiplied
+                # in another order there than in the baseline
                 return "interned-factor-order"
         return "other"
 
@@ -536,9 +548,11 @@ class C04Plan(RunPlan):
             "sizes (2-4 fundamental dimensions, 2-5 units each, named units of derived dimensions, redundant "
             "consistent declarations in seeded order) with conversions interleaved at arbitrary points, caches "
             "cold/warm/evicted, under several boot configurations; every successful in_unit is compared with "
-            "magnitude*size(src)/size(dst) in exact arithmetic (1e-9) and must carry the requested unit object. "
-            "Query shapes (<=3 factors, |exponent|<=3, any prefix) are drawn from the calibrated region (DESIGN "
-            "World B: classes X1-X6 excluded; their exemplars are re-executed every run). Non-trivial = >=1 value "
+            "magnitude*size(src)/size(dst) in exact arithmetic (1e-12; 1e-9 where binary and decimal prefixes mix; "
+            "1e-5 per degree in shipped mode, where the system is the boot's shipped units with sizes solved from "
+            "the traced declarations) and must carry the requested unit object. Query shapes (<=3 factors, "
+            "|exponent|<=3, any prefix) are drawn from the calibrated region (DESIGN 8.3: classes X1-X8 excluded; "
+            "their exemplars are re-executed every run). Non-trivial = >=1 value "
             "checked; distinct = distinct event-log digests.")
 
     def boots(self, tier, seed):
@@ -598,11 +612,18 @@ class C07Plan(C04Plan):
         ores = pool.run(otasks)
         self.opt_runs = getattr(self, "opt_runs", 0) + len(ores)
         for i, (r, o) in enumerate(zip(results, ores)):
-            if "harness_error" in o:
-                results[i] = {"harness_error": "-O world: " + o["harness_error"]}
-                continue
             if "harness_error" in r:
                 continue
+            if "harness_error" in o:
+                # a world that dies or hangs only under -O is exactly what clause 2 is about - if it
+                # does so again in a fresh template; a one-off is a harness failure (exit 2)
+                o2 = driver.one(*otasks[i])
+                if "harness_error" in o2:
+                    r.setdefault("violations", []).append({
+                        "clause": "C07.O-diff", "signature": "C07/-O-diff/world-failed-under-O", "step": 0,
+                        "detail": {"python": "completed", "python_O": str(o2["harness_error"]).strip()[-200:]}})
+                    continue
+                o = o2
             c = r.setdefault("counters", {})
             c["C07.O-diff.checked"] = c.get("C07.O-diff.checked", 0) + 1
             if r.get("digest") != o.get("digest"):
@@ -828,11 +849,12 @@ class C09Plan(RunPlan):
               "source_hashes": source_hashes()}
         d = os.path.join(REPLAY_DIR, "C09")
         os.makedirs(d, exist_ok=True)
-        import re as _re
+        from sim.plans import safe_name
 
-        path = os.path.join(d, _re.sub(r"[^A-Za-z0-9_.+-]", "_", sig)[:100] + ".json")
+        path = os.path.join(d, safe_name(sig, None))
         with open(path, "w") as f:
             json.dump(rp, f, indent=1)
+        self.last_replay_reproduced = any(x["signature"] == sig for x in final.get("violations", []))
         return path
 
     def samples(self, tasks, results):
